@@ -114,9 +114,13 @@ class Ctx:
         self.stats["solver_calls"] += st["solver_calls"]
         self.stats["explore_s"] += time.time() - t
         n = len(prem)
-        for o in outs:
+        from .verify import Obligation
+
+        for k, o in enumerate(outs):
             o.pc = o.pc[n:]
             self.assumed.update(o.assumed)
+            for label, pc, goal in o.interp.side_obligations:
+                self.extra_obligations.append(Obligation(f"{self.cdef.name}/{ns}{k}/pre:{label}", list(pc), goal, "pre", "precondition of a callee / assertion"))
         return outs
 
     def equiv(self, label, run_a, run_b, **kw):
@@ -197,6 +201,9 @@ def run_contract(name, carveouts=(), timeout_ms=10000):
         for cmp in ctx.comparisons:
             cmp.discharge(timeout_ms)
             obs.extend(cmp.obligations)
+        for ob in ctx.extra_obligations:
+            ob.check(timeout_ms)
+            obs.append(ob)
         res["paths"] = ctx.stats["paths"]
         res["assumed"] = sorted(ctx.assumed)
         res["obligations"] = len(obs)
